@@ -92,6 +92,19 @@ def base_program(rng, wrong=False):
             i = rng.randrange(len(rows))
             L.append(rng.choice([f"v{n} = sum(m{n}[{i}])", f"v{n} = m{n}[{i}][0]", f"v{n} = m{n}[{i}][0] + {a}"]))
             ints.append(f"v{n}")
+        elif k < 0.99:
+            # an annotated list of lists whose rows start empty (the annotation is the only source of the item type)
+            cls = cls_of.get(a, "SecretInteger")
+            L.append(f"g{n}: list[list[{cls}]] = {rng.choice(['[[]]', '[[], []]', '[[' + a + '], []]'])}")
+            L.append(f"w{n} = g{n}[0]")
+            if rng.random() < 0.5:
+                row = rng.choice([0, -1])
+                L.append(f"g{n}[{row}].append({a})")
+                L.append(f"v{n} = g{n}[{row}][0]")
+                ints.append(f"v{n}")
+                cls_of[f"v{n}"] = cls
+            else:
+                L.append(f"u{n} = [w{n}, g{n}[-1]]")
         else:
             L.append(f"n{n} = {rng.randint(0, 9)} {rng.choice(['+', '-', '*'])} {rng.randint(0, 9)}")
     outs = []
